@@ -1,13 +1,16 @@
 (* C18 — executable model of component/models/sdjwt (issuer v2/v5, holder, verifier) — NO proofs here.
 
-   Values are JSON trees in which a digest STRING is the symbolic term [VDig alg e salt name v]: the hash
-   (algorithm [alg]) of the base64url text of the JSON array with [e] elements [salt, name?, v]
+   Values are JSON trees in which a digest STRING is the symbolic term [VDig alg enc e salt name v]: the hash
+   (algorithm [alg]) of the RECEIVED text, i.e. of text variant [enc] (0 = the canonical un-padded base64url
+   text of the compact JSON; k > 0 = another text that decodes to the same JSON: base64 trailing bits, embedded
+   CR/LF, other JSON white space) of the JSON array with [e] elements [salt, name?, v]
    (e = 3: object member disclosure, e = 2: array element disclosure, e >= 4: longer array, e = 0: the hash
    of a raw salt string = a decoy).  Hash, JSON encoding and base64 are injective by construction (symbolic
-   abstraction, DESIGN section 8); a re-encoding of the same JSON text (white space, base64 trailing bits)
-   is a different string and is given a different salt symbol by the harness.  Salts are symbols of type
-   [path]: the issuer model names the salt drawn at a disclosure site by the site's path, the harness names
-   observed salts by their index.  Go's nil = JSON null = [VNull]. *)
+   abstraction, DESIGN section 8).  Salts are symbols of type [path]: the issuer model names the salt drawn at
+   a disclosure site by the site's path, the harness names observed salts by their index.
+   Go's nil = JSON null = [VNull].
+   Recursion through object members / array elements goes through map / flat_map and helper functions that
+   take the recursive call as an argument, so that the proofs are plain list inductions. *)
 From Coq Require Import List String ZArith NArith Bool.
 Import ListNotations.
 From VF Require Export common.Res.
@@ -19,7 +22,7 @@ Definition path := list step.
 
 Inductive val :=
 | VNull | VBool (b : bool) | VNum (z : Z) | VStr (s : string)
-| VDig (alg : N) (e : N) (salt : path) (name : string) (v : val)
+| VDig (alg : N) (enc : N) (e : N) (salt : path) (name : string) (v : val)
 | VArr (l : list val) | VObj (m : list (string * val)).
 
 (* ---------- equality ---------- *)
@@ -43,8 +46,8 @@ Fixpoint val_eqb (x y : val) {struct x} : bool :=
   | VBool a, VBool b => Bool.eqb a b
   | VNum a, VNum b => Z.eqb a b
   | VStr a, VStr b => String.eqb a b
-  | VDig a e s n v, VDig a' e' s' n' v' =>
-      N.eqb a a' && N.eqb e e' && path_eqb s s' && String.eqb n n' && val_eqb v v'
+  | VDig a c e s n v, VDig a' c' e' s' n' v' =>
+      N.eqb a a' && N.eqb c c' && N.eqb e e' && path_eqb s s' && String.eqb n n' && val_eqb v v'
   | VArr l, VArr l' =>
       (fix go (l1 l2 : list val) {struct l1} : bool :=
          match l1, l2 with
@@ -77,17 +80,19 @@ Fixpoint lookupv (m : list (string * val)) (k : string) : option val :=
   match m with [] => None | (k', v) :: r => if String.eqb k k' then Some v else lookupv r k end.
 
 Definition is_null (v : val) : bool := match v with VNull => true | _ => false end.
-Definition is_string (v : val) : bool := match v with VStr _ | VDig _ _ _ _ _ => true | _ => false end.
+Definition is_string (v : val) : bool := match v with VStr _ | VDig _ _ _ _ _ _ => true | _ => false end.
 
 Definition SD := "_sd".
 Definition SDALG := "_sd_alg".
 Definition DOTS := "...".
 
 (* ---------- disclosures ---------- *)
-(* a disclosure string, by its content; d_e < 2 stands for every text getDisclosureClaim refuses
-   (not base64, not a JSON array, fewer than two elements, salt or member name not a string) *)
-Record disc := { d_e : N; d_salt : path; d_name : string; d_val : val }.
-Definition digest (alg : N) (d : disc) : val := VDig alg (d_e d) (d_salt d) (d_name d) (d_val d).
+(* a disclosure string, by the text variant received and its content; d_e < 2 stands for every text
+   getDisclosureClaim refuses (not un-padded base64url, not a JSON array, fewer than two elements, salt or
+   member name not a string) *)
+Record disc := { d_enc : N; d_e : N; d_salt : path; d_name : string; d_val : val }.
+(* GetHash(hash, disclosure): over the received string *)
+Definition digest (alg : N) (d : disc) : val := VDig alg (d_enc d) (d_e d) (d_salt d) (d_name d) (d_val d).
 Definition disc_eqb (a b : disc) : bool := val_eqb (digest 0 a) (digest 0 b).
 Fixpoint memd (d : disc) (l : list disc) : bool :=
   match l with [] => false | x :: r => disc_eqb d x || memd d r end.
@@ -96,83 +101,75 @@ Fixpoint nodupd (l : list disc) : bool :=
 
 (* ---------- common/verification.go discloseClaimValue ----------
    [D]: digests of the presented disclosures.  By injectivity of the symbolic hash the disclosure whose digest
-   is [VDig a e s n v] IS (e, s, n, v), so the code's map lookup recData.disclosures[digest] is the membership
-   test [memv g D] and the looked-up value is [v].  [cleanup] = recData.cleanupDigestsClaims. *)
+   is [VDig a c e s n v] IS (c, e, s, n, v), so the code's map lookup recData.disclosures[digest] is the
+   membership test [memv g D] and the looked-up value is [v].  [cleanup] = recData.cleanupDigestsClaims. *)
+Inductive outcome := ONone | OVal (r : res val).
+
+(* a digest string met under "_sd" (ctx 3) or "..." (ctx 2): not presented, or the (recursively resolved)
+   value of its disclosure, or the arity error *)
+Definition enter (rec : val -> res val) (D : list val) (ctx : N) (g : val) : outcome :=
+  match g with
+  | VDig _ _ e _ _ v' =>
+      if memv g D then (if N.eqb e ctx then OVal (rec v') else OVal (Err ERejected)) else ONone
+  | VStr _ => ONone
+  | _ => OVal (Err EInvalid)                                            (* "invalid array struct" *)
+  end.
+Definition dig_name (g : val) : string := match g with VDig _ _ _ _ n _ => n | _ => "" end.
+
+Fixpoint seq_elems (l : list outcome) : res (list val) :=
+  match l with
+  | [] => Ok []
+  | ONone :: r => seq_elems r
+  | OVal x :: r => bind x (fun y => bind (seq_elems r) (fun t => Ok (y :: t)))
+  end.
+Fixpoint seq_named (l : list (string * outcome)) : res (list (string * val)) :=
+  match l with
+  | [] => Ok []
+  | (_, ONone) :: r => seq_named r
+  | (k, OVal x) :: r => bind x (fun y => bind (seq_named r) (fun t => Ok ((k, y) :: t)))
+  end.
+(* ordinary members: a nil result is not stored (if newValue != nil) *)
+Fixpoint seq_plain (l : list (string * outcome)) : res (list (string * val)) :=
+  match l with
+  | [] => Ok []
+  | (_, ONone) :: r => seq_plain r
+  | (k, OVal x) :: r => bind x (fun y => bind (seq_plain r) (fun t => Ok (if is_null y then t else (k, y) :: t)))
+  end.
+
+(* one array element: an object with a "..." member is a digest element *)
+Definition elem_outcome (rec : val -> res val) (cleanup : bool) (D : list val) (x : val) : outcome :=
+  match x with
+  | VObj m =>
+      match flat_map (fun kv => if String.eqb (fst kv) DOTS then [enter rec D 2 (snd kv)] else []) m with
+      | [] => OVal (Ok x)                                               (* no "..." member: element as it is *)
+      | ONone :: _ => if cleanup then ONone else OVal (Ok x)
+      | o :: _ => o
+      end
+  | _ => OVal (Ok x)                                                    (* not a map: as it is, not entered *)
+  end.
+(* the value of an "_sd" member *)
+Definition sd_outcome (rec : val -> res val) (D : list val) (x : val) : res (list (string * val)) :=
+  match x with
+  | VNull => Ok []
+  | VArr gl => if forallb is_string gl then seq_named (map (fun g => (dig_name g, enter rec D 3 g)) gl)
+               else Err EInvalid
+  | _ => Err EInvalid
+  end.
+Definition reserved (cleanup : bool) (k : string) : bool := String.eqb k SD || (String.eqb k SDALG && cleanup).
+Definition arr_or_null (l : list val) : val := match l with [] => VNull | _ => VArr l end.  (* len(newValues)==0 -> nil *)
+
 Fixpoint resolve (cleanup : bool) (D : list val) (v : val) {struct v} : res val :=
   match v with
-  | VArr l =>
-      bind ((fix go (l : list val) : res (list val) :=
-               match l with
-               | [] => Ok []
-               | x :: r =>
-                   match x with
-                   | VObj m =>
-                       (* parsedMap["..."] *)
-                       (fix dots (m' : list (string * val)) : res (list val) :=
-                          match m' with
-                          | [] => bind (go r) (fun t => Ok (x :: t))          (* no "..." member: element as it is *)
-                          | (k, g) :: r' =>
-                              if String.eqb k DOTS then
-                                match g with
-                                | VDig _ e _ _ v' =>
-                                    if memv g D then
-                                      if N.eqb e 2 then
-                                        bind (resolve cleanup D v') (fun y => bind (go r) (fun t => Ok (y :: t)))
-                                      else Err ERejected
-                                    else if cleanup then go r else bind (go r) (fun t => Ok (x :: t))
-                                | VStr _ => if cleanup then go r else bind (go r) (fun t => Ok (x :: t))
-                                | _ => Err EInvalid                            (* "invalid array struct" *)
-                                end
-                              else dots r'
-                          end) m
-                   | _ => bind (go r) (fun t => Ok (x :: t))                   (* not a map: as it is *)
-                   end
-               end) l)
-           (fun l' => Ok (match l' with [] => VNull | _ => VArr l' end))    (* len(newValues)==0 -> nil *)
+  | VArr l => bind (seq_elems (map (elem_outcome (resolve cleanup D) cleanup D) l)) (fun l' => Ok (arr_or_null l'))
   | VObj m =>
-      (* nested _sd list: the disclosed members *)
-      let sdl :=
-        (fix find (m' : list (string * val)) : res (list (string * val)) :=
-           match m' with
-           | [] => Ok []
-           | (k, x) :: r' =>
-               if String.eqb k SD then
-                 match x with
-                 | VNull => Ok []
-                 | VArr gl =>
-                     if forallb is_string gl then
-                       (fix sdgo (gl : list val) : res (list (string * val)) :=
-                          match gl with
-                          | [] => Ok []
-                          | g :: gr =>
-                              match g with
-                              | VDig _ e _ n v' =>
-                                  if memv g D then
-                                    if N.eqb e 3 then
-                                      bind (resolve cleanup D v') (fun y => bind (sdgo gr) (fun t => Ok ((n, y) :: t)))
-                                    else Err ERejected
-                                  else sdgo gr
-                              | _ => sdgo gr
-                              end
-                          end) gl
-                     else Err EInvalid
-                 | _ => Err EInvalid
-                 end
-               else find r'
-           end) m in
-      let plain :=
-        (fix pl (m' : list (string * val)) : res (list (string * val)) :=
-           match m' with
-           | [] => Ok []
-           | (k, x) :: r' =>
-               if String.eqb k SD || (String.eqb k SDALG && cleanup) then pl r'
-               else bind (resolve cleanup D x) (fun y => bind (pl r') (fun t =>
-                      Ok (if is_null y then t else (k, y) :: t)))
-           end) m in
+      let sdl := hd (Ok []) (flat_map (fun kv => if String.eqb (fst kv) SD
+                                                 then [sd_outcome (resolve cleanup D) D (snd kv)] else []) m) in
+      let plain := seq_plain (map (fun kv => (fst kv, if reserved cleanup (fst kv) then ONone
+                                                      else OVal (resolve cleanup D (snd kv)))) m) in
       bind sdl (fun s => bind plain (fun p =>
         (* "claim name already exists at the same level" *)
-        let keys := map fst s ++ filter (fun k => negb (String.eqb k SD || (String.eqb k SDALG && cleanup))) (map fst m) in
-        if nodups keys then Ok (VObj (s ++ p)) else Err ERejected))
+        if nodups (map fst s ++ filter (fun k => negb (reserved cleanup k)) (map fst m))
+        then Ok (VObj (s ++ p)) else Err ERejected))
   | _ => Ok v
   end.
 
@@ -180,7 +177,7 @@ Fixpoint resolve (cleanup : bool) (D : list val) (v : val) {struct v} : res val 
    an "_sd" list, 2 for the string under "..." of an array element, 0 elsewhere (an ordinary value). *)
 Fixpoint collect (D : list val) (ctx : N) (v : val) {struct v} : list val :=
   match v with
-  | VDig _ e _ _ v' =>
+  | VDig _ _ e _ _ v' =>
       if N.eqb ctx 0 then [] else v :: (if memv v D && N.eqb e ctx then collect D 0 v' else [])
   | VStr _ => if N.eqb ctx 0 then [] else [v]
   | VArr l =>
@@ -295,35 +292,42 @@ Record iopts := {
   o_nonsd : list path; o_always : list path; o_recursive : list path;
   o_iss : string; o_cnf : option Z }.
 
-Fixpoint decoys (alg : N) (p : path) (n : nat) : list val :=
-  match n with O => [] | S k => decoys alg p k ++ [VDig alg 0 (p ++ [SDecoy (N.of_nat k)]) "" VNull] end.
+Definition mk (e : N) (s : path) (n : string) (v : val) : disc :=
+  {| d_enc := 0; d_e := e; d_salt := s; d_name := n; d_val := v |}.
+
+(* createDecoyDisclosures: the "disclosure" of a decoy is the raw salt *)
 Fixpoint decoy_discs (p : path) (n : nat) : list disc :=
-  match n with O => [] | S k => decoy_discs p k ++ [{| d_e := 0; d_salt := p ++ [SDecoy (N.of_nat k)]; d_name := ""; d_val := VNull |}] end.
+  match n with O => [] | S k => decoy_discs p k ++ [mk 0 (p ++ [SDecoy (N.of_nat k)]) "" VNull] end.
+
+(* per member: (visible members, this level's disclosures, nested disclosures) *)
+Definition triple := (list (string * val) * list disc * list disc)%type.
+Definition t_vis (t : triple) := fst (fst t).
+Definition t_lvl (t : triple) := snd (fst t).
+Definition t_nst (t : triple) := snd t.
+Definition cat3 (l : list triple) : triple := (flat_map t_vis l, flat_map t_lvl l, flat_map t_nst l).
 
 Definition sd_member (gs : list val) : val := match gs with [] => VNull | _ => VArr gs end.
+(* v2: "_sd" is always written (null for no digest); decoys are digests only *)
+Definition sd2 (o : iopts) (cur : path) (lvl : list disc) : string * val :=
+  (SD, sd_member (map (digest (o_alg o)) (lvl ++ decoy_discs cur (o_decoys o)))).
 
-(* v2.go CreateDisclosuresAndDigests (claims = VObj m): (visible members, this level's digests, disclosures) *)
-Fixpoint issue2 (o : iopts) (p : path) (c : val) {struct c} : list (string * val) * list val * list disc :=
+(* v2.go CreateDisclosuresAndDigests, one member *)
+Definition member2 (rec : path -> val -> triple) (o : iopts) (p : path) (kv : string * val) : triple :=
+  let k := fst kv in
+  let x := snd kv in
+  let cur := p ++ [SKey k] in
+  let leaf : triple := if memp cur (o_nonsd o) then ([(k, x)], [], []) else ([], [mk 3 cur k x], []) in
+  match x with
+  | VObj _ =>
+      if o_structured o then
+        let t := rec cur x in
+        ([(k, VObj (t_vis t ++ [sd2 o cur (t_lvl t)]))], [], t_lvl t ++ t_nst t)
+      else leaf
+  | _ => leaf
+  end.
+Fixpoint issue2 (o : iopts) (p : path) (c : val) {struct c} : triple :=
   match c with
-  | VObj m =>
-      (fix go (m : list (string * val)) : list (string * val) * list val * list disc :=
-         match m with
-         | [] => ([], [], [])
-         | (k, x) :: r =>
-             let '(vis, dg, ds) := go r in
-             let cur := p ++ [SKey k] in
-             let leaf :=
-               if memp cur (o_nonsd o) then ((k, x) :: vis, dg, ds)
-               else (vis, VDig (o_alg o) 3 cur k x :: dg, {| d_e := 3; d_salt := cur; d_name := k; d_val := x |} :: ds) in
-             match x with
-             | VObj _ =>
-                 if o_structured o then
-                   let '(vis', dg', ds') := issue2 o cur x in
-                   ((k, VObj (vis' ++ [(SD, sd_member (dg' ++ decoys (o_alg o) cur (o_decoys o)))])) :: vis, dg, ds' ++ ds)
-                 else leaf
-             | _ => leaf
-             end
-         end) m
+  | VObj m => cat3 (map (member2 (issue2 o) o p) m)
   | _ => ([], [], [])
   end.
 
@@ -335,66 +339,64 @@ Fixpoint elems5 (o : iopts) (p : path) (i : N) (l : list val) : list val * list 
       let '(es, ds) := elems5 o p (N.succ i) r in
       let ep := p ++ [SIdx i] in
       if memp ep (o_nonsd o) then (x :: es, ds)
-      else (VObj [(DOTS, VDig (o_alg o) 2 ep "" x)] :: es, {| d_e := 2; d_salt := ep; d_name := ""; d_val := x |} :: ds)
+      else (VObj [(DOTS, digest (o_alg o) (mk 2 ep "" x))] :: es, mk 2 ep "" x :: ds)
   end.
-
 Definition arr_member (es : list val) : val := match es with [] => VNull | _ => VArr es end.
 
-(* v5.go createDisclosuresAndDigestsInternal (claims = VObj m): (visible members, this level's disclosures,
-   nested disclosures); a JSON null makes reflect.TypeOf(value).Kind() dereference nil: Panic *)
+Definition sd5 (o : iopts) (cur : path) (lvl : list disc) : list (string * val) :=
+  match lvl ++ decoy_discs cur (o_decoys o) with
+  | [] => []
+  | l => [(SD, VArr (map (digest (o_alg o)) l))]
+  end.
 Definition obj5 (o : iopts) (cur : path) (vis' : list (string * val)) (lvl' : list disc) : val :=
-  VObj (vis' ++ match lvl' ++ decoy_discs cur (o_decoys o) with
-                | [] => []
-                | l => [(SD, VArr (map (digest (o_alg o)) l))]
-                end).
+  VObj (vis' ++ sd5 o cur lvl').
 
-Fixpoint issue5 (o : iopts) (ign : bool) (p : path) (c : val) {struct c}
-  : res (list (string * val) * list disc * list disc) :=
+Fixpoint seq3 (l : list (res triple)) : res (list triple) :=
+  match l with
+  | [] => Ok []
+  | x :: r => bind x (fun t => bind (seq3 r) (fun ts => Ok (t :: ts)))
+  end.
+
+(* v5.go createDisclosuresAndDigestsInternal, one member; a JSON null makes reflect.TypeOf(value).Kind()
+   dereference nil: Panic.  The decoy salts of a level are returned among its disclosures (DESIGN 11 #24). *)
+Definition member5 (rec : bool -> path -> val -> res triple) (o : iopts) (ign : bool) (p : path)
+           (kv : string * val) : res triple :=
+  let k := fst kv in
+  let x := snd kv in
+  let cur := p ++ [SKey k] in
+  let ignored := memp cur (o_nonsd o) in
+  let always := memp cur (o_always o) in
+  let recursive := memp cur (o_recursive o) in
+  match x with
+  | VNull => Panic 1%N
+  | VObj _ =>
+      if ignored then Ok ([(k, x)], [], [])
+      else
+        bind (rec (negb (recursive || always || o_structured o)) cur x) (fun t =>
+          let all' := decoy_discs cur (o_decoys o) ++ t_lvl t ++ t_nst t in
+          if negb (recursive && negb always) && (recursive || always || o_structured o)
+          then Ok ([(k, obj5 o cur (t_vis t) (t_lvl t))], [], all')
+          else Ok ([], [mk 3 cur k (obj5 o cur (t_vis t) (t_lvl t))], all'))
+  | VArr l =>
+      if ignored then Ok ([(k, x)], [], [])
+      else
+        let '(es, eds) := elems5 o cur 0 l in
+        if always || o_structured o then Ok ([(k, arr_member es)], [], eds)
+        else Ok ([], [mk 3 cur k (arr_member es)], eds)
+  | _ =>
+      if ignored || ign then Ok ([(k, x)], [], [])
+      else Ok ([], [mk 3 cur k x], [])
+  end.
+Fixpoint issue5 (o : iopts) (ign : bool) (p : path) (c : val) {struct c} : res triple :=
   match c with
-  | VObj m =>
-      (fix go (m : list (string * val)) : res (list (string * val) * list disc * list disc) :=
-         match m with
-         | [] => Ok ([], [], [])
-         | (k, x) :: r =>
-             bind (go r) (fun '(vis, lvl, nested) =>
-             let cur := p ++ [SKey k] in
-             let ignored := memp cur (o_nonsd o) in
-             let always := memp cur (o_always o) in
-             let recursive := memp cur (o_recursive o) in
-             let mk v := {| d_e := 3; d_salt := cur; d_name := k; d_val := v |} in
-             match x with
-             | VNull => Panic 1%N
-             | VObj _ =>
-                 if ignored then Ok ((k, x) :: vis, lvl, nested)
-                 else
-                   bind (issue5 o (negb (recursive || always || o_structured o)) cur x) (fun '(vis', lvl', nested') =>
-                     let all' := decoy_discs cur (o_decoys o) ++ lvl' ++ nested' in
-                     if recursive && negb always then Ok (vis, mk (obj5 o cur vis' lvl') :: lvl, all' ++ nested)
-                     else if recursive || always || o_structured o then Ok ((k, obj5 o cur vis' lvl') :: vis, lvl, all' ++ nested)
-                     else Ok (vis, mk (obj5 o cur vis' lvl') :: lvl, all' ++ nested))
-             | VArr l =>
-                 if ignored then Ok ((k, x) :: vis, lvl, nested)
-                 else
-                   let '(es, eds) := elems5 o cur 0 l in
-                   if always || o_structured o then Ok ((k, arr_member es) :: vis, lvl, eds ++ nested)
-                   else Ok (vis, mk (arr_member es) :: lvl, eds ++ nested)
-             | _ =>
-                 if ignored || ign then Ok ((k, x) :: vis, lvl, nested)
-                 else Ok (vis, mk x :: lvl, nested)
-             end)
-         end) m
+  | VObj m => bind (seq3 (map (member5 (issue5 o) o ign p) m)) (fun ts => Ok (cat3 ts))
   | _ => Ok ([], [], [])
   end.
 
 (* KeyExistsInMap(SDKey, claims): through nested maps only *)
 Fixpoint key_exists_sd (c : val) : bool :=
   match c with
-  | VObj m =>
-      (fix go (m : list (string * val)) : bool :=
-         match m with
-         | [] => false
-         | (k, x) :: r => String.eqb k SD || key_exists_sd x || go r
-         end) m
+  | VObj m => existsb (fun kv => String.eqb (fst kv) SD || key_exists_sd (snd kv)) m
   | _ => false
   end.
 
@@ -407,34 +409,29 @@ Definition registered (o : iopts) : list (string * val) :=
 Definition issue (o : iopts) (claims : list (string * val)) : res (val * list disc) :=
   if key_exists_sd (VObj claims) then Err EInvalid
   else if o_v5 o then
-    bind (issue5 o false [] (VObj claims)) (fun '(vis, lvl, nested) =>
-      let top := decoy_discs [] (o_decoys o) ++ lvl in
-      Ok (VObj (registered o ++ vis ++ match top with [] => [] | l => [(SD, VArr (map (digest (o_alg o)) l))] end),
-          top ++ nested))
+    bind (issue5 o false [] (VObj claims)) (fun t =>
+      Ok (VObj (registered o ++ t_vis t ++ sd5 o [] (t_lvl t)),
+          decoy_discs [] (o_decoys o) ++ t_lvl t ++ t_nst t))
   else
-    let '(vis, dg, ds) := issue2 o [] (VObj claims) in
-    Ok (VObj (registered o ++ vis ++ [(SD, sd_member (dg ++ decoys (o_alg o) [] (o_decoys o)))]), ds).
-
-(* the pre-fix-free variant of v5 keeps decoys out of the disclosure list (what v2 does) *)
-Definition strip_decoys (ds : list disc) : list disc := filter (fun d => negb (N.eqb (d_e d) 0)) ds.
+    let t := issue2 o [] (VObj claims) in
+    Ok (VObj (registered o ++ t_vis t ++ [sd2 o [] (t_lvl t)]), t_lvl t ++ t_nst t).
 
 (* ---------- the specification side: what a verifier is to output ----------
    [sel]: the disclosure sites (paths) the holder chose.  Always-visible claims plus the chosen ones with
    their issued values; nothing about digests. *)
+Definition rmember2 (rec : path -> val -> list (string * val)) (o : iopts) (sel : list path) (p : path)
+           (kv : string * val) : list (string * val) :=
+  let k := fst kv in
+  let x := snd kv in
+  let cur := p ++ [SKey k] in
+  let leaf := if memp cur (o_nonsd o) || memp cur sel then [(k, x)] else [] in
+  match x with
+  | VObj _ => if o_structured o then [(k, VObj (rec cur x))] else leaf
+  | _ => leaf
+  end.
 Fixpoint reveal2 (o : iopts) (sel : list path) (p : path) (c : val) {struct c} : list (string * val) :=
   match c with
-  | VObj m =>
-      (fix go (m : list (string * val)) : list (string * val) :=
-         match m with
-         | [] => []
-         | (k, x) :: r =>
-             let cur := p ++ [SKey k] in
-             let leaf := if memp cur (o_nonsd o) || memp cur sel then (k, x) :: go r else go r in
-             match x with
-             | VObj _ => if o_structured o then (k, VObj (reveal2 o sel cur x)) :: go r else leaf
-             | _ => leaf
-             end
-         end) m
+  | VObj m => flat_map (rmember2 (reveal2 o sel) o sel p) m
   | _ => []
   end.
 
@@ -447,35 +444,32 @@ Fixpoint reveal_elems (o : iopts) (sel : list path) (p : path) (i : N) (l : list
       else reveal_elems o sel p (N.succ i) r
   end.
 
+Definition rmember5 (rec : bool -> path -> val -> list (string * val)) (o : iopts) (sel : list path) (ign : bool)
+           (p : path) (kv : string * val) : list (string * val) :=
+  let k := fst kv in
+  let x := snd kv in
+  let cur := p ++ [SKey k] in
+  let ignored := memp cur (o_nonsd o) in
+  let always := memp cur (o_always o) in
+  let recursive := memp cur (o_recursive o) in
+  match x with
+  | VObj _ =>
+      if ignored then [(k, x)]
+      else
+        let inner := VObj (rec (negb (recursive || always || o_structured o)) cur x) in
+        if negb (recursive && negb always) && (recursive || always || o_structured o) then [(k, inner)]
+        else if memp cur sel then [(k, inner)] else []
+  | VArr l =>
+      if ignored then [(k, x)]
+      else
+        let es := VArr (reveal_elems o sel cur 0 l) in
+        if always || o_structured o then [(k, es)]
+        else if memp cur sel then [(k, es)] else []
+  | _ => if ignored || ign || memp cur sel then [(k, x)] else []
+  end.
 Fixpoint reveal5 (o : iopts) (sel : list path) (ign : bool) (p : path) (c : val) {struct c} : list (string * val) :=
   match c with
-  | VObj m =>
-      (fix go (m : list (string * val)) : list (string * val) :=
-         match m with
-         | [] => []
-         | (k, x) :: r =>
-             let cur := p ++ [SKey k] in
-             let ignored := memp cur (o_nonsd o) in
-             let always := memp cur (o_always o) in
-             let recursive := memp cur (o_recursive o) in
-             match x with
-             | VObj _ =>
-                 if ignored then (k, x) :: go r
-                 else
-                   let inner := VObj (reveal5 o sel (negb (recursive || always || o_structured o)) cur x) in
-                   if recursive && negb always then (if memp cur sel then (k, inner) :: go r else go r)
-                   else if recursive || always || o_structured o then (k, inner) :: go r
-                   else (if memp cur sel then (k, inner) :: go r else go r)
-             | VArr l =>
-                 if ignored then (k, x) :: go r
-                 else
-                   let es := VArr (reveal_elems o sel cur 0 l) in
-                   if always || o_structured o then (k, es) :: go r
-                   else (if memp cur sel then (k, es) :: go r else go r)
-             | _ =>
-                 if ignored || ign || memp cur sel then (k, x) :: go r else go r
-             end
-         end) m
+  | VObj m => flat_map (rmember5 (reveal5 o sel) o sel ign p) m
   | _ => []
   end.
 
